@@ -331,6 +331,34 @@ func scenarioC09UP4(r *Run) {
 		}
 		return true
 	}
+	if !fill && r.Ch.Choose(5, "two-flows") == 1 {
+		// one session with two flows (PDR pairs), each with an application QER of its
+		// own: the first QFI possibly mapped to a traffic class, the second not (or the
+		// other way round) - every terminations entry carries the class of ITS QFI,
+		// the configured default for an unmapped one. The run ends there (deleting a
+		// session with several PDRs per direction is a listed C04 finding).
+		s := g.Session(p, SessShape{NQER: 2, ExtraPDRs: 1, TEIDChoose: r.Ch.Choose(2, "choose") == 1})
+		if len(s.PDRs) == 4 && len(s.QERs) == 2 {
+			qfis := []uint8{9, 5, 1, 63, 33, 20}
+			s.QERs[0].QFI = qfis[r.Ch.Choose(len(qfis), "qfi-a")]
+			s.QERs[1].QFI = qfis[r.Ch.Choose(len(qfis), "qfi-b")]
+			for k, pd := range s.PDRs {
+				pd.QERIDs = []uint32{s.QERs[k/2].ID}
+			}
+			res := p.Establish(s)
+			_, mappedA := o.QFIToTC[s.QERs[0].QFI]
+			_, mappedB := o.QFIToTC[s.QERs[1].QFI]
+			r.Op("establish cp=%d with two flows: QFI %d (mapped: %v) and QFI %d (mapped: %v), default TC %d -> accepted=%v", s.CPSEID, s.QERs[0].QFI, mappedA, s.QERs[1].QFI, mappedB, o.DefaultTC, res.Accepted)
+			r.Skel(fmt.Sprintf("two-flows:%v:%v:%v", mappedA, mappedB, res.Accepted))
+			if res.Accepted {
+				r.Accepted++
+				r.Probe("two-flows-with-qers-of-their-own")
+				r.CheckUP4Image("C09", fmt.Sprintf("after establishment of cp=%d with two flows", s.CPSEID), "est:two-flows:up4", o)
+			}
+		}
+		r.CheckNoPanics("C09")
+		return
+	}
 	if fill {
 		// every accepted session is judged (rates per cell); the first refusal ends the run
 		attach(int(cells))
